@@ -63,6 +63,13 @@ def run_case(cls, key, seed, ctx):
     elif ns >= 2 and r < 0.32:
         X[:, sens_pos[1]] = X[:, sens_pos[0]]
         rank_class = "duplicate"
+    elif ns >= 2 and r < 0.42:
+        # a complete set of one-hot dummies of one categorical variable: exactly collinear after centring, in exact 0/1 arithmetic
+        cat = rng.integers(0, ns, size=n)
+        cat[:ns] = np.arange(ns)[: len(cat[:ns])]
+        for j, pos_ in enumerate(sens_pos):
+            X[:, pos_] = (cat == j).astype(float)
+        rank_class = "onehot"
     alpha = float(gen.pick(rng, [1.0, 1.0, 0.3, 0.0]))
     use_df = rng.random() < 0.5
     names = ["col%d" % j for j in range(p)]
